@@ -9,6 +9,7 @@
 //! @assume core::str::from_utf8 is stubbed to accept (all strings in these harnesses are ASCII constants; http's ByteStr re-validates them in debug builds)
 //! @assume the mock stream and the request objects under test live in the harness's stack frame and deallocation is a no-op (use-after-free / leaks are outside the claim)
 //! @assume the mock overrides PendingRespond::send_bad_response to record (status, extra headers) instead of building an http::Response (the default method, shared by the real codecs, is a 6-line builder loop that is not examined)
+//! @assume alloc::fmt::format is replaced by verif_env::fmt_format_bounded in the failure-table harnesses: the same core::fmt machinery writing into a fixed 96-byte buffer instead of a growing String (the text is preserved); the Io row (io::Error drop glue) is in the thorough tier only
 //! @assume an authority is reserved iff it is exactly `_check`, `_udp2` or `_icmp` (no port, case-sensitive), as PROTOCOL.md spells them
 use super::*;
 use crate::downstream::{PendingRequest as _, PendingTcpConnectRequest as _, PendingDemultiplexedRequest};
@@ -81,6 +82,7 @@ fn dispatch<const KIND: usize, const CONNECT: bool>(uri: &'static str) {
                 _ => assert!(false, "C10.dest.kind: destination of the wrong kind for this authority"),
             }
             kani::cover!(d.is_ok(), "C10.cover.dispatch_tcp_ok");
+            kani::cover!(d.is_err(), "C10.cover.dispatch_tcp_refused");
             std::mem::forget(d);
             std::mem::forget(t);
         }
@@ -92,8 +94,8 @@ fn dispatch<const KIND: usize, const CONNECT: bool>(uri: &'static str) {
  "bound": "request {1} (CONNECT, or GET) with authority '{4}'",
  "desc": "dispatch on authority and method: reserved x CONNECT -> health 200+eof / datagram multiplexer + one 200; reserved x other -> one 502; everything else -> TCP connect with the right destination (or refusal of CONNECT without port); never zero or two responses",
  "encodes": ["http_downstream::PendingRequest::promote_to_next_state", "http_downstream::DatagramMultiplexer::promote_to_next_state", "http_downstream::TcpConnection::destination"],
- "quick": "[(n, m, k, 'true' if m == 'connect' else 'false', u) for (n, k, u) in [('check', 0, '_check'), ('udp2', 1, '_udp2'), ('icmp', 2, '_icmp'), ('literal', 5, '192.0.2.9:8080')] for m in ('connect', 'other') if not (m == 'other' and k in (3, 5))]",
- "thorough": "[(n, m, k, 'true' if m == 'connect' else 'false', u) for (n, k, u, m) in [('host_port', 3, 'example.org:8443', 'connect'), ('host_noport', 4, 'example.org', 'connect'), ('host_noport', 4, 'example.org', 'other'), ('abs_host_port', 3, 'http://example.org:8443/x', 'other'), ('abs_host_noport', 4, 'http://example.org/x', 'other'), ('abs_literal', 5, 'http://192.0.2.9:8080/', 'other')]]"}
+ "quick": "[(n, m, k, 'true' if m == 'connect' else 'false', u) for (n, k, u) in [('check', 0, '_check'), ('udp2', 1, '_udp2'), ('icmp', 2, '_icmp'), ('literal', 5, '192.0.2.9:8080'), ('host_port', 3, 'example.org:8443'), ('host_noport', 4, 'example.org')] for m in ('connect', 'other') if not (m == 'other' and k in (3, 5))]",
+ "thorough": "[]"}
 @*/
 
 /// Look-alikes of the reserved names are ordinary destinations (or refused for lack of a port), never answered as reserved.
@@ -181,11 +183,11 @@ fn failure<const WHICH: usize>() {
 }
 
 /*@gen
-{"name": "c10_failure_response_{1}", "call": "failure::<{0}>()", "unwind": 40, "stubs": ["utf8", "nofree"], "core": true,
+{"name": "c10_failure_response_{1}", "call": "failure::<{0}>()", "unwind": 100, "stubs": ["utf8", "nofree", "fmtb"], "core": true,
  "bound": "ConnectionError::{1} on a CONNECT host.example:443 request",
  "desc": "fail_request_with_error sends exactly one final response: 407 + Basic challenge for Authentication, 502 + the documented X-Warning code otherwise, host name echoed for 310/311",
  "encodes": ["http_downstream::fail_request_with_error", "http_downstream::tunnel_error_to_status_code", "http_downstream::tunnel_error_to_warn_header", "http_codec::PendingRespond::send_bad_response"],
- "quick": "[(1,'Authentication'),(6,'Other')]", "thorough": "[(0,'Io'),(2,'Timeout'),(3,'HostUnreachable'),(4,'DnsNonroutable'),(5,'DnsLoopback')]"}
+ "quick": "[(1,'Authentication'),(6,'Other'),(2,'Timeout'),(3,'HostUnreachable'),(4,'DnsNonroutable'),(5,'DnsLoopback')]", "thorough": "[(0,'Io')]"}
 @*/
 
 // @harness tier=quick core=yes bound="CONNECT host.example:443 accepted (TcpConnection::promote_to_next_state)"
